@@ -17,7 +17,7 @@ followed by S becomes `if c: pass` / `else: S`."""
 import ast
 import copy
 
-from .core import FuncInfo, norm, walk_local
+from .core import FuncInfo, norm, walk_local, copy_tree
 
 MAX_DEPTH = 3
 
@@ -87,9 +87,9 @@ def _structure_returns(stmts, on_return):
             if rest:
                 rest_new, r_falls = _structure_returns(rest, on_return)
                 if b_falls:
-                    body = body + copy.deepcopy(rest_new)
+                    body = body + copy_tree(rest_new)
                 if o_falls:
-                    orelse = orelse + copy.deepcopy(rest_new)
+                    orelse = orelse + copy_tree(rest_new)
                 falls = (b_falls or o_falls) and r_falls
             else:
                 falls = b_falls or o_falls
@@ -108,7 +108,7 @@ class _Subst(ast.NodeTransformer):
 
     def visit_Name(self, node):
         if node.id in self.mapping and isinstance(node.ctx, ast.Load):
-            return ast.copy_location(copy.deepcopy(self.mapping[node.id]), node)
+            return ast.copy_location(copy_tree(self.mapping[node.id]), node)
         if node.id in self.rename:
             return ast.copy_location(ast.Name(id=self.rename[node.id], ctx=node.ctx), node)
         return node
@@ -159,7 +159,7 @@ def _bind(h, base, call, tag):
 
 
 def _body_copy(h, subst):
-    body = [copy.deepcopy(st) for st in h.node.body]
+    body = [copy_tree(st) for st in h.node.body]
     if body and isinstance(body[0], ast.Expr) and isinstance(body[0].value, ast.Constant) and isinstance(body[0].value.value, str):
         body = body[1:]
     return [subst.visit(st) for st in body]
@@ -226,7 +226,7 @@ class _Inliner:
             return self.splice(st.value, lambda e, at: ([loc(ast.Expr(value=e))] if e is not None and not isinstance(e, ast.Constant) else []))
         if isinstance(st, ast.Assign) and len(st.targets) == 1 and isinstance(st.value, ast.Call):
             tgt = st.targets[0]
-            return self.splice(st.value, lambda e, at: [loc(ast.Assign(targets=[copy.deepcopy(tgt)], value=e if e is not None else ast.Constant(value=None)))], need_value=True)
+            return self.splice(st.value, lambda e, at: [loc(ast.Assign(targets=[copy_tree(tgt)], value=e if e is not None else ast.Constant(value=None)))], need_value=True)
         if isinstance(st, ast.Return) and isinstance(st.value, ast.Call):
             return self.splice(st.value, lambda e, at: [loc(ast.Return(value=e))], need_value=True)
         if isinstance(st, ast.Expr) and isinstance(st.value, ast.YieldFrom) and isinstance(st.value.value, ast.Call):
@@ -254,7 +254,7 @@ class _Inliner:
                 if b is None or b[0]:
                     return node
                 me.inlined.append(h.qualname)
-                return ast.copy_location(b[1].visit(copy.deepcopy(body[0].value)), node)
+                return ast.copy_location(b[1].visit(copy_tree(body[0].value)), node)
 
         for fld, val in ast.iter_fields(st):
             if isinstance(val, ast.expr):
@@ -271,7 +271,7 @@ def inlined_view(P, f):
     key = (id(P), f.key)
     if key in _cache:
         return _cache[key]
-    node = copy.deepcopy(f.node)
+    node = copy_tree(f.node)
     inl = _Inliner(P, f)
     node.body = inl.stmts(node.body, 0)
     if not inl.inlined:
